@@ -642,6 +642,97 @@ Definition run_plugin (inh : bool) (cfg : config) (oracle : nat -> bytes -> res 
   fl <- gather_fields cfg ;;
   do_events inh ks fl oracle cfg evs.
 
+(* ---- per-mask do_if and metric labels ---------------------------------------------------------------
+   mask.go Do: before the traversal every mask that has a do_if gets  use = DoIfChecker.Check(event)
+   (masks without one: use = true since compileMask); processMask skips a mask unless
+   mask.use && mask.checkMatchRules(value).  pipeline/doif is the subject of C14: the case carries Check's
+   answers per event (an oracle, computed by the generator with the real doif package on the event as it
+   enters Do).  A mask that is not used behaves as a mask whose match rules reject every value.
+   Labels: after the traversal and the mask_applied_field write, Do reads every applied_metric_labels key
+   with Root.Dig(key) (ONE key, not a selector) and increments the plugin counter of these label values;
+   metrics.go applyMaskMetric does the same for every mask that fired, has a metric name and whose name is
+   not the plugin's (registerMetrics leaves such a mask without a counter).  makeMetric refuses (Fatal)
+   an empty or repeated label. *)
+Definition gate (use : bool) (k : cmask) : cmask :=
+  if use then k
+  else {| k_apply := k_apply k; k_groups := k_groups k; k_nsub := k_nsub k; k_mode := k_mode k;
+          k_rules := [(false, [])];
+          k_afield := k_afield k; k_avalue := k_avalue k; k_metric := k_metric k;
+          k_own_ign := k_own_ign k; k_own_proc := k_own_proc k |}.
+(* bits beyond the list: used *)
+Fixpoint gate_all (ks : list cmask) (bits : list bool) : list cmask :=
+  match ks, bits with
+  | k :: r, b :: br => gate b k :: gate_all r br
+  | _, _ => ks
+  end.
+
+Record mext := { x_labels : list bytes; x_clash : bool }.   (* metric_labels; metric_name = applied_metric_name *)
+Definition mext0 : mext := {| x_labels := []; x_clash := false |}.
+
+(* Node.AsString of insane-json: strings and numbers their text, true / false / null, "" for containers *)
+Definition as_label (v : json) : bytes :=
+  match v with
+  | JStr s => s
+  | JNum s => s
+  | JBool true => [116; 114; 117; 101]%N
+  | JBool false => [102; 97; 108; 115; 101]%N
+  | JNull => [110; 117; 108; 108]%N
+  | _ => []
+  end.
+Definition NOT_SET : bytes := [110; 111; 116; 95; 115; 101; 116]%N.
+Definition label_val (root : json) (k : bytes) : bytes :=
+  match dig_path root [k] with Some v => as_label v | None => NOT_SET end.
+
+Fixpoint has_dup_b (l : list bytes) : bool :=
+  match l with [] => false | x :: r => existsb (bytes_eqb x) r || has_dup_b r end.
+Definition bad_labels (l : list bytes) : bool := existsb is_nil l || has_dup_b l.
+
+(* one counter: None = not touched by this event, Some (delta, label values) *)
+Definition mobs := option (Z * list bytes).
+
+Fixpoint mask_mobs (i : nat) (ks : list cmask) (xs : list mext) (fired : list nat) (root : json) : list mobs :=
+  match ks with
+  | [] => []
+  | k :: r =>
+      let '(x, xr) := match xs with x :: xr => (x, xr) | [] => (mext0, []) end in
+      (if k_metric k && negb (x_clash x) && (0 <? count_fired fired i)
+       then Some (count_fired fired i, map (label_val root) (x_labels x)) else None)
+      :: mask_mobs (S i) r xr fired root
+  end.
+
+(* the plugin counter first, then the masks in order; root = the event as Do leaves it *)
+Definition event_metrics (ks : list cmask) (cfg : config) (plabels : list bytes) (xs : list mext)
+           (root : json) (fired : list nat) : list mobs :=
+  (if negb (is_nil fired) && c_metric cfg then Some (1, map (label_val root) plabels) else None)
+  :: mask_mobs 0 ks xs fired root.
+
+Fixpoint do_events_ext (inh : bool) (ks : list cmask) (fl : fields) (oracle : nat -> bytes -> res (list (list Z)))
+         (cfg : config) (plabels : list bytes) (xs : list mext) (evs : list (json * list bool))
+  : res (list json * list (list mobs)) :=
+  match evs with
+  | [] => Ok ([], [])
+  | (e, bits) :: r =>
+      '(e', fired) <- do_event inh (gate_all ks bits) fl oracle cfg e ;;
+      '(r', ms) <- do_events_ext inh ks fl oracle cfg plabels xs r ;;
+      Ok (e' :: r', event_metrics ks cfg plabels xs e' fired :: ms)
+  end.
+
+Fixpoint labels_refused (ks : list cmask) (xs : list mext) : bool :=
+  match ks with
+  | [] => false
+  | k :: r =>
+      let '(x, xr) := match xs with x :: xr => (x, xr) | [] => (mext0, []) end in
+      (k_metric k && negb (x_clash x) && bad_labels (x_labels x)) || labels_refused r xr
+  end.
+
+Definition run_plugin_ext (inh : bool) (cfg : config) (oracle : nat -> bytes -> res (list (list Z)))
+           (plabels : list bytes) (xs : list mext) (evs : list (json * list bool))
+  : res (list json * list (list mobs)) :=
+  ks <- compile_masks (c_masks cfg) ;;
+  fl <- gather_fields cfg ;;
+  if (c_metric cfg && bad_labels plabels) || labels_refused ks xs then Err 1
+  else do_events_ext inh ks fl oracle cfg plabels xs evs.
+
 (* ---- specification vocabulary (used by the theorems; not by the runner) ------------------------------ *)
 (* a value cut into kept and hidden segments *)
 Inductive seg := Keep (b : bytes) | Hide (b : bytes).
@@ -821,6 +912,47 @@ Definition c17_verdict (cfg : config) (t : table) (evs : list json) (obs : sx) :
     then (if pred then Agree else Violates (sx_of_out spec))
     else (if pred then Differ (sx_of_out code) else Violates (sx_of_out spec)).
 
+(* which = 2: case = (global masks events table ext)
+     ext = (route (#plugin_label ...) (((#mask_label ...) clash do_if) ...) ((use ...) ...))
+       route and do_if tell the harness how to build the real plugin (literal configuration or the JSON text
+       through the plugin registry's factory + cfg.DecodeConfig; the do_if tree) and are not read here;
+       one list of use bits per event, one bit per mask
+   obs = (0 (event ...) ((counter ...) ...)) | (1 1) | (2)    one list per event: the plugin counter, then the
+       masks';  counter = () untouched | (delta #label_value ...)                                          *)
+Definition mext_of_sx (s : sx) : option mext :=
+  match s with
+  | SL [ls; cl; _] => match as_list as_B ls, as_bool cl with
+                      | Some ls, Some cl => Some {| x_labels := ls; x_clash := cl |}
+                      | _, _ => None
+                      end
+  | _ => None
+  end.
+Definition sx_of_mobs (m : mobs) : sx :=
+  match m with None => SL [] | Some (d, vs) => SL (SZ d :: map SB vs) end.
+Definition sx_of_out_ext (r : res (list json * list (list mobs))) : sx :=
+  match r with
+  | Ok (evs, ms) => SL [SZ 0; SL (map sx_of_json evs); SL (map (fun l => SL (map sx_of_mobs l)) ms)]
+  | Err e => SL [SZ 1; SZ 1]
+  | Panic _ => SL [SZ 2]
+  end.
+Fixpoint zip_bits (evs : list json) (bits : list (list bool)) : option (list (json * list bool)) :=
+  match evs, bits with
+  | [], [] => Some []
+  | e :: r, b :: br => match zip_bits r br with Some l => Some ((e, b) :: l) | None => None end
+  | _, _ => None
+  end.
+
+Definition c17_verdict_ext (cfg : config) (t : table) (pl : list bytes) (xs : list mext)
+           (evs : list (json * list bool)) (obs : sx) : verdict :=
+  let code := run_plugin_ext false cfg (lookup t) pl xs evs in
+  let spec := run_plugin_ext true cfg (lookup t) pl xs evs in
+  if is_oracle_err code || is_oracle_err spec then BadCase
+  else
+    let pred := sx_eqb (sx_of_out_ext spec) obs in
+    if sx_eqb (sx_of_out_ext code) obs
+    then (if pred then Agree else Violates (sx_of_out_ext spec))
+    else (if pred then Differ (sx_of_out_ext code) else Violates (sx_of_out_ext spec)).
+
 Definition c17_entry (which : Z) (case obs : sx) : verdict :=
   match which with
   | 0 =>
@@ -831,6 +963,26 @@ Definition c17_entry (which : Z) (case obs : sx) : verdict :=
               c17_verdict {| c_masks := [m]; c_afield := []; c_avalue := []; c_metric := true; c_ign := []; c_proc := [] |}
                           [(0%nat, v, ix)] [JStr v] obs
           | _, _ => BadCase
+          end
+      | _ => BadCase
+      end
+  | 2 =>
+      match case with
+      | SL [g; ms; evs; tb; SL [_; pl; xs; bits]] =>
+          match config_of_sx g ms, as_list json_of_sx evs, as_list entry_of_sx tb with
+          | Some cfg, Some evs, Some t =>
+              match as_list as_B pl, as_list mext_of_sx xs, as_list (as_list as_bool) bits with
+              | Some pl, Some xs, Some bits =>
+                  match zip_bits evs bits with
+                  | Some evb =>
+                      if (length xs =? length (c_masks cfg))%nat &&
+                         forallb (fun b => (length b =? length (c_masks cfg))%nat) bits
+                      then c17_verdict_ext cfg t pl xs evb obs else BadCase
+                  | None => BadCase
+                  end
+              | _, _, _ => BadCase
+              end
+          | _, _, _ => BadCase
           end
       | _ => BadCase
       end
